@@ -40,6 +40,9 @@ Theorem C10_create_stub_files_is_the_loop : forall nc data outside fs0,
   | Err e => Err e
   end.
 Proof. exact create_stub_files_go. Qed.
+(* well_formed holds whenever every module segment of every class path is non-empty and contains no '/' (dotted Python names) *)
+Theorem C10_good_names_are_well_formed : forall cs, Forall good_name cs -> well_formed cs.
+Proof. exact good_names_are_well_formed. Qed.
 (* the hypotheses are satisfiable and the conclusion has content: ctypes.CDLL < ctypes._endian.BigEndianStructure < ctypes.c_int *)
 Theorem C10_placeholder_example : well_formed ctypes_example /\
   match go_outside false ctypes_example ([], []) with
@@ -54,3 +57,4 @@ Print Assumptions C10_rewrite_same_text.
 Print Assumptions C10_placeholder_files_complete.
 Print Assumptions C10_create_stub_files_is_the_loop.
 Print Assumptions C10_placeholder_example.
+Print Assumptions C10_good_names_are_well_formed.
